@@ -830,9 +830,15 @@ int main(int argc, char** argv) {
     for (int i = 1; i + 1 < argc; ++i) if (std::string(argv[i]) == "--stage") g_fast_stage = std::string(argv[i + 1]) == "fast";
     bool thorough = false;
     for (int i = 1; i + 1 < argc; ++i) if (std::string(argv[i]) == "--tier") thorough = std::string(argv[i + 1]) == "thorough";
-    // pairs explored by this stage: all 22, except the deep plain-build stage of the quick tier: the 10 pairs that contain template 0
+    // pairs explored by this stage
     std::vector<int> jp;
-    for (int i = 0; i < (int)pairs().size(); ++i) if (thorough || !g_fast_stage || pairs()[i].a == 0) jp.push_back(i);
+    // (thorough: all 22 in both stages; quick: the 10 pairs containing the base template 0, in the sanitizer stage also one pair of every
+    //  other relation: other-client-port/swapped-hosts, v6/v6, equal-ports/same-host per family)
+    for (int i = 0; i < (int)pairs().size(); ++i) {
+        Pair p = pairs()[i];
+        bool extra = (p.a == 1 && p.b == 3) || (p.a == 4 && p.b == 5) || (p.a == 7 && p.b == 9) || (p.a == 8 && p.b == 10);
+        if (thorough || p.a == 0 || (!g_fast_stage && extra)) jp.push_back(i);
+    }
     const int npairs = (int)jp.size();
     int nbfs = NPROF * NMODE * npairs;
     return run_main(argc, argv, nbfs + 1, nbfs + 1,
